@@ -209,3 +209,106 @@ func Precedes(a, b ssa.Instruction) bool {
 	}
 	return Info(a.Parent()).Dominates(a.Block(), b.Block())
 }
+
+// EveryPathHas decides a disjunctive guard: on every CFG path (pruned at
+// non-returning calls) from the function entry to instruction `in`, at least
+// one branch edge establishes a fact matching one of the patterns. It answers
+// by searching for a path that avoids all such edges; the offending path
+// (block indices) is returned when one exists.
+func EveryPathHas(in ssa.Instruction, pats ...string) (ok bool, trace []int) {
+	return EveryPathFromHas(in.Parent().Blocks[0], in.Block(), pats...)
+}
+
+// EveryPathFromHas is EveryPathHas for paths that start at block `start`
+// (e.g. a loop body entry) and end on entry to block `target`.
+func EveryPathFromHas(start, target *ssa.BasicBlock, pats ...string) (ok bool, trace []int) {
+	fn := start.Parent()
+	fi := Info(fn)
+	matches := func(d, s *ssa.BasicBlock) bool {
+		if len(d.Instrs) == 0 {
+			return false
+		}
+		ifi, isIf := d.Instrs[len(d.Instrs)-1].(*ssa.If)
+		if !isIf || d.Succs[0] == d.Succs[1] {
+			return false
+		}
+		pol := d.Succs[0] == s
+		for _, a := range CondAtoms(ifi.Cond, pol) {
+			for _, p := range pats {
+				for _, alt := range strings.Split(p, " || ") {
+					if Match(alt, a) {
+						return true
+					}
+				}
+			}
+		}
+		return false
+	}
+	parent := map[*ssa.BasicBlock]*ssa.BasicBlock{}
+	seen := map[*ssa.BasicBlock]bool{start: true}
+	work := []*ssa.BasicBlock{start}
+	first := true
+	for len(work) > 0 {
+		b := work[0]
+		work = work[1:]
+		if b == target && !(first && start == target) {
+			var tr []int
+			for x := b; x != nil; x = parent[x] {
+				tr = append([]int{x.Index}, tr...)
+			}
+			return false, tr
+		}
+		first = false
+		for _, s := range fi.Succs[b] {
+			if matches(b, s) {
+				continue
+			}
+			if seen[s] && s != target {
+				continue
+			}
+			if s == target && seen[s] && s != start {
+				continue
+			}
+			seen[s] = true
+			if _, ok := parent[s]; !ok && s != start {
+				parent[s] = b
+			}
+			work = append(work, s)
+		}
+	}
+	return true, nil
+}
+
+// Loop describes a natural loop found by back edges in the pruned CFG.
+type Loop struct {
+	Header  *ssa.BasicBlock
+	Latches []*ssa.BasicBlock // blocks with an edge back to Header
+}
+
+// Loops lists the natural loops of fn (one per header).
+func Loops(fn *ssa.Function) []Loop {
+	fi := Info(fn)
+	m := map[*ssa.BasicBlock]*Loop{}
+	var order []*ssa.BasicBlock
+	for _, b := range fn.Blocks {
+		if !fi.Reach[b] {
+			continue
+		}
+		for _, s := range fi.Succs[b] {
+			if fi.Dominates(s, b) { // back edge b -> s
+				l := m[s]
+				if l == nil {
+					l = &Loop{Header: s}
+					m[s] = l
+					order = append(order, s)
+				}
+				l.Latches = append(l.Latches, b)
+			}
+		}
+	}
+	var out []Loop
+	for _, h := range order {
+		out = append(out, *m[h])
+	}
+	return out
+}
